@@ -9,8 +9,13 @@ HEAD = subprocess.run(['git', '-C', '/repo', 'rev-parse', 'HEAD'], capture_outpu
 
 def tests(wt, tag):
     x = f'/tmp/wt/_junit_{tag}.xml'
-    subprocess.run(['/venv/bin/python', '-m', 'pytest', '-q', '-p', 'no:cacheprovider', '--timeout=900', '--continue-on-collection-errors', f'--junitxml={x}'],
-                   cwd=wt, capture_output=True, text=True, env=dict(os.environ, PYTHONPATH=wt))
+    for attempt in range(3):        # a forked multiprocessing pool occasionally deadlocks under load: bounded, retried
+        try:
+            subprocess.run(['/venv/bin/python', '-m', 'pytest', '-q', '-p', 'no:cacheprovider', '--timeout=900', '--continue-on-collection-errors', f'--junitxml={x}'],
+                           cwd=wt, capture_output=True, text=True, env=dict(os.environ, PYTHONPATH=wt), timeout=600)
+            break
+        except subprocess.TimeoutExpired:
+            subprocess.run(['pkill', '-f', f'junitxml={x}'])
     ok = set()
     for tc in ET.parse(x).getroot().iter('testcase'):
         if not any(c.tag in ('failure', 'error', 'skipped') for c in tc):
